@@ -3,6 +3,7 @@ package c11
 
 import (
 	"encoding/json"
+	"math/rand"
 	"os"
 	"path/filepath"
 	"time"
@@ -36,6 +37,8 @@ func Run(o *hx.Opts, w *lineio.Writer) error {
 	jobs = append(jobs, c10.TruncationSweep(mp, sizes)...)
 	jobs = append(jobs, c10.OverflowSweep(mp, []int{1, 2, 3, 4, 7})...)
 	jobs = append(jobs, c10.ListenerScripts(mp)...)
+	jobs = append(jobs, c10.ReopenScripts(mp)...)
+	jobs = append(jobs, c10.TearSweep(mp)...)
 	r := o.Rand(11)
 	for i := 0; i < o.N(500, 12000); i++ {
 		jobs = append(jobs, c10.RandomScript(r, mp, i))
@@ -46,6 +49,9 @@ func Run(o *hx.Opts, w *lineio.Writer) error {
 	var chaos []c10.Job
 	for i := 0; i < o.N(240, 4000); i++ {
 		chaos = append(chaos, RandomChaos(r, mp, i))
+	}
+	for i := 0; i < o.N(24, 200); i++ {
+		chaos = append(chaos, StuckWrite(r, mp, i))
 	}
 	return c10.RunIsolated("C11", o, w, chaos, 10, 30*time.Second)
 }
@@ -88,5 +94,31 @@ func dumpCorpus(dir string, mp int) error {
 	if err := dump("C11", "overflow-q1.jsonl", c10.OverflowSweep(mp, []int{1})[:2]); err != nil {
 		return err
 	}
-	return dump("C11", "listener.jsonl", c10.ListenerScripts(mp))
+	if err := dump("C11", "listener.jsonl", c10.ListenerScripts(mp)); err != nil {
+		return err
+	}
+	// seeded breakages C11-s1 / s2 / s4 (stale close after re-open, torn header, Close vs a
+	// Write stuck on the trunk)
+	var re []c10.Job
+	for _, j := range c10.ReopenScripts(mp) {
+		switch j.ID {
+		case "reopen-d0-s1-f0", "reopen-d1-s2-f1", "reopen-d0-s2-f2":
+			re = append(re, j)
+		}
+	}
+	if err := dump("C11", "reopen-stale-close.jsonl", re); err != nil {
+		return err
+	}
+	var te []c10.Job
+	for _, j := range c10.TearSweep(mp) {
+		switch j.ID {
+		case "tear-d0-k0", "tear-d0-k2", "tear-d1-k4", "tear-d0-k7":
+			te = append(te, j)
+		}
+	}
+	if err := dump("C11", "torn-header.jsonl", te); err != nil {
+		return err
+	}
+	r := rand.New(rand.NewSource(4))
+	return dump("C11", "stuck-write.jsonl", []c10.Job{StuckWrite(r, mp, 0), StuckWrite(r, mp, 1), StuckWrite(r, mp, 2)})
 }
